@@ -53,6 +53,13 @@ def cases(tier, seed):
     for d1, d2, d3 in itertools.product(pool3, repeat=3):
         for replace in (False, True):
             yield {"kind": "merge", "recs": [mk("m/one", d1, 0, "s0"), mk("m/two", d2, 1, "s1"), mk("m/three", d3, 2, "s2")], "replace": replace, "name": None}
+    # grouped records as inputs of a merge: first, in the middle, last
+    GM = {"group": "m/grp", "members": [mk("m/ga", [["string", "a"], ["varint", "n"]], 3, "sg1"), mk("m/gb", [["string", "b"], ["datetime", "t"], ["string", "a"]], 4, "sg2")]}
+    for other in pool2[:12]:
+        for replace in (False, True):
+            yield {"kind": "merge", "recs": [GM, mk("m/two", other, 1, "s1")], "replace": replace, "name": None}
+            yield {"kind": "merge", "recs": [mk("m/one", other, 0, "s0"), GM], "replace": replace, "name": "x/renamed"}
+            yield {"kind": "merge", "recs": [mk("m/one", other, 0, "s0"), GM, mk("m/three", other, 2, "s2")], "replace": replace, "name": None}
     # (2) timestamp expansion
     names = ["ts", "ts_description", "a", "d1", "d2"]
     for k in range(0, 5 if thorough else 4):
@@ -150,7 +157,8 @@ def run_merge(case):
         ftype = {}
         fval = {}
         for r, spec in zip(records, case["recs"]):
-            for t, n in spec["fields"]:
+            # (a grouped record takes part through its flat view, which the group leg judges on its own)
+            for t, n in (spec["fields"] if "fields" in spec else [list(x) for x in r._desc.get_field_tuples()]):
                 if n not in ftype:
                     order.append(n)
                     ftype[n] = t
@@ -187,7 +195,7 @@ def run_merge(case):
         viol.append(("C15:merge:cold-warm-differ", case, {"outs": outs}))
     seen = set()
     v2 = [v for v in viol if not (v[0] in seen or seen.add(v[0]))]
-    return {"ev": 2, "h": h, "nt": any(r["fields"] for r in case["recs"]), "out": "merge:" + "/".join(sorted(set(outs))), "viol": v2,
+    return {"ev": 2, "h": h, "nt": any(r.get("fields") or r.get("members") for r in case["recs"]), "out": "merge:" + "/".join(sorted(set(outs))), "viol": v2,
             "sample": case if int(h, 16) % 1999 == 0 else None}
 
 
